@@ -230,3 +230,18 @@ def first_mismatch(A, B, upto):
                 if best is None or k < best[2]:
                     best = (i, j, k, a.coeff(k), b.coeff(k))
     return best, known
+
+
+def deviation_at(A, B, upto, t):
+    """(largest |A_ij(t) - B_ij(t)| estimated from the known coefficients below order `upto`, its entry, largest |B_ij(t)|)"""
+    worst, where, scale = 0.0, None, 0.0
+    for i in range(len(A)):
+        for j in range(len(A[0])):
+            d = A[i][j] - B[i][j]
+            n = min(upto, A[i][j].N, B[i][j].N)
+            dev = sum(abs(float(c)) * t ** k for k, c in d.c.items() if k < n)
+            if dev > worst:
+                worst, where = dev, (i, j)
+            sc = abs(sum(float(c) * t ** k for k, c in B[i][j].c.items() if k < n))
+            scale = max(scale, sc)
+    return worst, where, scale
